@@ -84,8 +84,8 @@ def generate(tier, seed):
     rnd.shuffle(pairs)
     rnd.shuffle(triples)
     progs += [list(p) for p in pairs[:200 if tier == 'quick' else len(pairs)]]
-    progs += [list(p) for p in triples[:300 if tier == 'quick' else 2600]]
-    quads = [rnd.sample(RULES, 4) for _ in range(100 if tier == 'quick' else 1500)]
+    progs += [list(p) for p in triples[:300 if tier == 'quick' else 20000]]
+    quads = [rnd.sample(RULES, 4) for _ in range(100 if tier == 'quick' else 20000)]
     progs += quads
     for rules in progs:
         items.append({'family': 'tightness', 'program': ' '.join(rules)})
